@@ -68,7 +68,12 @@ func genC13Case(r *rand.Rand, writers, readers, opsPer int) c13Case {
 				case 4, 5, 6:
 					ops = append(ops, c13Op{Kind: "store", Exp: e, URI: e + c13Locals[1+r.Intn(len(c13Locals)-1)], DS: []string{"da", "db"}[r.Intn(2)]})
 				case 7:
-					ops = append(ops, c13Op{Kind: "ctxstore", Exp: e, URI: e + c13Locals[r.Intn(len(c13Locals))]})
+					if r.Intn(2) == 0 {
+						// a batch that the store rejects (a nil reference value, as a transform can produce it)
+						ops = append(ops, c13Op{Kind: "badstore", Exp: e, URI: e + "bad", DS: []string{"da", "db"}[r.Intn(2)]})
+					} else {
+						ops = append(ops, c13Op{Kind: "ctxstore", Exp: e, URI: e + c13Locals[r.Intn(len(c13Locals))]})
+					}
 				default:
 					ops = append(ops, c13Op{Kind: "lookup", Exp: e})
 				}
@@ -254,6 +259,19 @@ func runC13Case(ctx *Ctx, c c13Case) {
 							mu.Unlock()
 						}
 						ev.kind = "implicit" // the parser asserted the expansion at some point inside this call
+					case "badstore":
+						bad := server.NewEntity("", 0)
+						if cur, err := st.GetNamespacedIdentifier(op.URI, map[string]string{}); err == nil {
+							bad.ID = cur
+							bad.References[cur+"-r"] = nil
+							ds := core.Dsm.GetDataset(op.DS)
+							if err := ds.StoreEntities([]*server.Entity{bad}); err == nil {
+								mu.Lock()
+								panics = append(panics, "a batch with a nil reference value was accepted")
+								mu.Unlock()
+							}
+						}
+						ev.kind = "implicit"
 					case "ctxstore":
 						_, _ = cstore.GetNamespacedIdentifier(op.URI, map[string]string{})
 						ev.kind = "implicit"
@@ -291,6 +309,31 @@ func runC13Case(ctx *Ctx, c c13Case) {
 	}
 	close(start)
 	wg.Wait()
+
+	// final burst: every writer asserts a namespace of its own at the same moment, nothing is asserted
+	// afterwards; what is on disk after this must be the complete mapping
+	{
+		var bw sync.WaitGroup
+		go2 := make(chan struct{})
+		for g := 0; g < 8; g++ {
+			bw.Add(1)
+			go func(g int) {
+				defer bw.Done()
+				exp := fmt.Sprintf("http://burst.example.org/%s/%d/", id, g)
+				<-go2
+				ev := c13Ev{g: 100 + g, kind: "assert", exp: exp}
+				ev.call = now()
+				p, err := core.Store.NamespaceManager.AssertPrefixMappingForExpansion(exp)
+				ev.prefix, ev.ok = p, err == nil
+				ev.ret = now()
+				mu.Lock()
+				evs = append(evs, ev)
+				mu.Unlock()
+			}(g)
+		}
+		close(go2)
+		bw.Wait()
+	}
 
 	// non-triviality: several goroutines asserted the same new expansion concurrently
 	firstAssert := map[string][]c13Ev{}
@@ -365,6 +408,28 @@ func runC13Case(ctx *Ctx, c c13Case) {
 		}
 	}
 	collect(core)
+	// every identifier that was stored resolves to its entity, and the id indexes are mutually inverse
+	resolve := func(c *hub.Core, when string) {
+		n := 0
+		for u := range uriIDs {
+			found := false
+			for _, d := range []string{"da", "db"} {
+				if r, err := obs.Lookup(c.Store, u, []string{d}); err == nil && r != nil && len(r.Props) > 0 {
+					found = true
+				}
+			}
+			n++
+			if !found {
+				ctx.Out.Viol(id, "C13", "stored-identifier-does-not-resolve", fmt.Sprintf("%s: the entity stored under %q is listed in its dataset but cannot be found by its identifier", when, u), nil, nil, nil)
+				return
+			}
+		}
+		ctx.Out.Stat("c13_identifiers_resolved", int64(n))
+		if msg := crossIndexInvariant(c); msg != "" {
+			ctx.Out.Viol(id, "C13", "id-index-"+firstColon(msg), when+": raw key scan: "+msg, nil, nil, nil)
+		}
+	}
+	resolve(core, "after the concurrent workload")
 	// restart: mappings are permanent
 	if err := core.Close(); err != nil {
 		ctx.Out.Viol(id, "C13", "close-error", err.Error(), nil, nil, nil)
@@ -384,6 +449,7 @@ func runC13Case(ctx *Ctx, c c13Case) {
 		}
 	}
 	collect(core2)
+	resolve(core2, "after the restart")
 	// new namespaces after the restart get prefixes that were never used
 	for i := 0; i < 3; i++ {
 		exp := fmt.Sprintf("http://after.restart/%d/", i)
